@@ -58,7 +58,8 @@
 //!                            repository treats these bytes as opaque.
 //!   ECDSA_SIG_to_bytes       DER into a fresh OPENSSL_malloc buffer (*out_bytes, *out_len), 1; 0 on allocation failure.
 //!   ECDSA_verify             0 unless `sig` is strict DER, 0 < r, s < n, the key has a public key and the ideal-signature
-//!                            relation conv::ecdsa_verify holds. With the point at infinity as public key the real equation
+//!                            relation conv::ecdsa_verify holds (which accepts (r, s) and its twin (r, n - s): aws-lc accepts
+//!                            high-S signatures, and ECDSA_sign emits s as drawn, low or high). With the point at infinity as public key the real equation
 //!                            degenerates (forgeable): the model leaves the result unconstrained.
 //!   ECDSA_SIG_free           frees r, s and the signature.
 //! ECDH (ecdh_extra.c, fipsmodule/ecdh/ecdh.c):
